@@ -480,6 +480,9 @@ def canary_trace(chk: Check, traces):
         if src:
             break
     if not src:
+        if chk.violations:
+            chk.note("canary (trace) skipped: no accepted trace left to corrupt - violations are being reported")
+            return
         raise MachineryFailure("canary: no trace with a spike followed by a refractory step was recorded")
     t, i = src
     good = copy.deepcopy(t)
